@@ -1,0 +1,30 @@
+//go:build verif
+// +build verif
+
+package network
+
+import "net"
+
+// Constructors the C03 verification harness (/verif/harness/cmd/c03) needs in
+// order to run the unchanged TCPConn and Router.handleConn code on a net.Conn
+// of its own (a scripted connection that hands out the byte stream in exactly
+// the generated segments). Compiled only with the "verif" build tag.
+
+// VerifNewTCPConn wraps an established net.Conn exactly as NewTCPConn and
+// TCPListener.listen do.
+func VerifNewTCPConn(c net.Conn, s Suite) *TCPConn {
+	return &TCPConn{
+		conn:  c,
+		suite: s,
+	}
+}
+
+// VerifAttach registers c as a connection of the peer remote and starts the
+// router's handleConn routine on it, as Router.Start's accept callback does
+// once the identity exchange has succeeded.
+func (r *Router) VerifAttach(remote *ServerIdentity, c Conn) error {
+	if err := r.registerConnection(remote, c); err != nil {
+		return err
+	}
+	return r.launchHandleRoutine(remote, c)
+}
